@@ -26,6 +26,11 @@ def run(ctx):
     from . import C03
     from .C19 import _Only
     C03.r2(_Only(ctx, "R2", "R5"), prog)
+    ctx.rule("R6", "set validation visits every solution: the loops over the solutions are plain iterations (no take/skip/filter/step adaptor) and Ok is returned only when they are exhausted")
+    ctx.rule("R7", "per-solution data stays with its solution regardless of position (C01-R6): cache, predicate, index, outputs and computed mutations are matched by solution index")
+    r6(ctx, prog)
+    from . import C01
+    C01.r6(_Only(ctx, "R6", "R7"), prog)
     f = prog.fn("essential_hash::solution_set_addr::from_set")
     if ctx.anchor("R2", "fn from_set", f):
         ctx.saw(f)
@@ -67,3 +72,77 @@ def run(ctx):
             ctx.ob("R3", "one-value-per-(contract,key)-across-solutions", (not in_solutions_loop) and keyed_by_contract, g.loc(created[0]) if created else g.loc(bb),
                    "the duplicate set is %s the loop over solutions and is probed with `%s`: two solutions of one contract may propose different values for one key; "
                    "the set is accepted and the post-state then depends on solution order (later insert wins)" % ("created inside" if in_solutions_loop else "created outside", probe[:160]), g)
+
+
+ADAPT = re.compile(r"Iterator::(take|take_while|skip|skip_while|step_by|filter|filter_map|map_while|scan|chain|zip|fuse|peekable|flat_map|flatten)$|slice::<impl \[T\]>::(split_at|split_first|split_last|chunks|windows|get)$")
+
+
+def r6(ctx, prog):
+    n = 0
+    for name, root_rx in [("check_solutions", r"slice::iter\(solutions\)"), ("check_set_state_mutations", r"into_iter\(set\.solutions\)|slice::iter\(set\.solutions\)")]:
+        f = prog.fn("essential_check::solution::" + name)
+        if not ctx.anchor("R6", "fn " + name, f):
+            continue
+        ctx.saw(f)
+        pv = prog.prov(f)
+        outer = []
+        for bb, t in f.calls():
+            if M.callee_decl(t).endswith("Iterator::next"):
+                recv = pv.of_operand(t["args"][0])
+                r = M.render(recv)
+                if re.search(root_rx, r) and ".0" not in r.split("solutions")[-1]:
+                    adapters = [x.a for x in recv.walk() if x.kind == "call" and ADAPT.search(x.a)]
+                    outer.append((bb, r, adapters))
+        ok = len(outer) == 1 and not outer[0][2]
+        n += 1
+        ctx.ob("R6", "%s:plain-iteration-over-all-solutions" % name, ok, f.loc(outer[0][0]) if outer else f.loc(0), "loops over the solutions: %s" % [(r[:110], a) for _, r, a in outer], f)
+        if len(outer) != 1:
+            continue
+        nxt = M.render(pv.of_call(f.term(outer[0][0])))
+        oks = [at for _, v, at in M.return_table(prog, f) if v.startswith("Result::Ok")]
+        ctx.ob("R6", "%s:Ok-only-after-the-last-solution" % name, len(oks) >= 1 and all(("is:None(%s)" % nxt) in at for at in oks), f.loc(0), "Ok returned under %s" % [[a[:70] for a in at[-1:]] for at in oks], f)
+        loops = [l for l in M.natural_loops(f) if outer[0][0] in l[1]]
+        # no exit from the solutions loop other than exhaustion, an error return, or unreachable
+        if loops:
+            body = max(loops, key=lambda l: len(l[1]))[1]
+            leaves = []
+            for b in M.loop_exit_switches(f, body):
+                t = f.term(b)
+                d = M.render(pv.of_operand(t["discr"]))
+                for tgt in [a[1] for a in t["arms"]] + [t["otherwise"]]:
+                    if tgt in body or f.term(tgt)["k"] == "unreachable":
+                        continue
+                    leaves.append((b, d, tgt))
+            bad = []
+            for b, d, tgt in leaves:
+                if d == "discr(%s)" % nxt:
+                    continue
+                # every other exit must lead to an Err return only
+                rows = [v for bb_, v, at in M.return_table(prog, f) if f.cfg().reaches(tgt, bb_) or tgt == bb_]
+                if any(v.startswith("Result::Ok") for v in rows) and not _only_err_from(prog, f, tgt):
+                    bad.append((b, d[:80]))
+            ctx.ob("R6", "%s:no-early-accept" % name, not bad, f.loc(bad[0][0]) if bad else f.loc(0), "exits of the solutions loop that can reach Ok without exhausting it: %s" % bad, f)
+    ctx.floor("R6", "validation loops over solutions", n, 2)
+
+
+def _only_err_from(prog, f, start):
+    """True when every return reachable from `start` without re-entering a loop header returns Err / propagates."""
+    seen, todo = {start}, [start]
+    while todo:
+        x = todo.pop()
+        t = f.term(x)
+        if t["k"] == "return":
+            continue
+        for y in f.succs(x):
+            if y not in seen:
+                seen.add(y)
+                todo.append(y)
+    rows = [(bb_, v) for bb_, v, at in M.return_table(prog, f)]
+    pv = prog.prov(f)
+    # the value assigned to _0 on the paths through `seen`
+    for bb in seen:
+        for st in f.blocks[bb]["stmts"]:
+            if st["k"] == "assign" and M.Place(st["pl"]).is_local() and M.Place(st["pl"]).local == 0:
+                if M.render(pv.of_rvalue(st["rv"])).startswith("Result::Ok"):
+                    return False
+    return True
